@@ -269,8 +269,10 @@ class Interp(object):
         def forall(pred):
             zs = [zbool(pred(y)) for y in items]
             return z3.And(*zs) if zs else z3.BoolVal(True)
-        return SSet(has, z3.IntVal(len(items)) if not any(
+        r = SSet(has, z3.IntVal(len(items)) if not any(
             isinstance(y, Sym) for y in items) else None, None, forall)
+        r.exact = True          # forall ranges over exactly the members
+        return r
 
     def ite_value(self, cond, fthen, felse):
         if isinstance(cond, bool):
